@@ -987,6 +987,11 @@ def _parsable_scenarios(R, m, f, codes, memo):
                 return isnone if isinstance(t.ops[0], ast.Is) else not isnone
             if isinstance(t, ast.Name) and t.id in st.get('fnvars', ()):
                 return st['vars'].get(t.id) is not None
+            if isinstance(t, ast.Compare) and len(t.ops) == 1 and isinstance(t.ops[0], (ast.Is, ast.IsNot)) and isinstance(t.left, ast.Name) and \
+                    t.left.id in st['vars'] and const_val(t.comparators[0], 0) is None:
+                # a local holding what a helper returned (a count, the marker of a function's total, or None)
+                isnone = st['vars'][t.left.id] is None
+                return isnone if isinstance(t.ops[0], ast.Is) else not isnone
             tx = ctext(t)
             if tx == '%s.valid' % selfn:
                 return sc['valid']
@@ -1040,7 +1045,10 @@ def _parsable_scenarios(R, m, f, codes, memo):
                 ot = ctext(other)
                 swapped = lt != ln
                 fn_names = ({st['it'][0]} if st['it'] is not None else set()) | {n_ for n_ in st.get('fnvars', ()) if isinstance(st['vars'].get(n_), tuple)}
-                if ot.endswith('.total_seq_count') and ot[:-len('.total_seq_count')] in fn_names:
+                held = st['vars'].get(other.id) if isinstance(other, ast.Name) else None
+                if isinstance(other, ast.Name) and other.id in st['vars'] and isinstance(held, int) and not isinstance(held, bool):
+                    other = ast.Constant(value=held)
+                if (ot.endswith('.total_seq_count') and ot[:-len('.total_seq_count')] in fn_names) or held == ('TOTAL',):
                     a_ = {'<': 4, '=': 5, '>': 6}[sc['lentotal']]
                     a_, b_ = (5, a_) if swapped else (a_, 5)
                     return {ast.Eq: a_ == b_, ast.NotEq: a_ != b_, ast.Lt: a_ < b_, ast.LtE: a_ <= b_, ast.Gt: a_ > b_, ast.GtE: a_ >= b_}.get(type(op))
@@ -1093,6 +1101,10 @@ def _parsable_scenarios(R, m, f, codes, memo):
                     except _Returned as r_:
                         return r_.value
                     return None
+            if isinstance(e, ast.Attribute) and e.attr == 'total_seq_count':
+                fn_names_ = ({st['it'][0]} if st['it'] is not None else set()) | {n_ for n_ in st.get('fnvars', ()) if isinstance(st['vars'].get(n_), tuple)}
+                if norm(e.value) in fn_names_:
+                    return ('TOTAL',)        # the total length of the colour function under consideration
             v = truth(e)
             if v is None:
                 raise Undecided('value `%s` is not determined by the scenario' % short(e))
@@ -1138,6 +1150,13 @@ def _parsable_scenarios(R, m, f, codes, memo):
                     if norm(t_) == '%s.%s' % (selfn, memo):
                         st['memo'] = value(s0.value)
                     elif isinstance(t_, ast.Name):
+                        v0 = s0.value
+                        if isinstance(v0, ast.Call) and isinstance(v0.func, ast.Attribute) and v0.func.attr.startswith('_') and not v0.func.attr.startswith('__') and \
+                                norm(v0.func.value) in (selfn, '__class__', f.cls) and m.funcs.get('%s.%s' % (f.cls, v0.func.attr)) is not None:
+                            # what a private helper returns under this scenario is held by the local (it is not an alias of an expression)
+                            al.pop(t_.id, None)
+                            st['vars'][t_.id] = value(v0)
+                            continue
                         if t_.id in al or call_name(s0.value) == 'to_list':
                             continue
                         st['vars'][t_.id] = value(s0.value)
@@ -1324,7 +1343,8 @@ def P25(m, R):
                     break
     else:
         # a comprehension over the pieces keeps each piece once by construction; what it keeps is decided on the abstract token classes
-        rets_ = [n for n in tl.walk() if isinstance(n, ast.Return)]
+        from .P_more3 import _own_returns, _conv_helper
+        rets_ = _own_returns(tl)
         if len(rets_) == 1 and isinstance(rets_[0].value, ast.ListComp) and len(rets_[0].value.generators) == 1:
             g_ = rets_[0].value.generators[0]
             e_ = rets_[0].value.elt
@@ -1336,7 +1356,7 @@ def P25(m, R):
                         env_ = {g_.target.id: cls_}
                         h_ = None
                         if isinstance(e_, ast.Call) and len(e_.args) == 1 and not e_.keywords and call_name(e_) not in ('int', 'AnsiParam'):
-                            h_ = m.funcs.get(call_name(e_)) or m.funcs.get('AnsiSetting.%s' % call_name(e_))
+                            h_ = _conv_helper(m, tl, call_name(e_))
                         if h_ is not None:
                             ps_ = h_.own_params() if h_.self_name else h_.params
                             conv[cls_] = _tok_run(h_.body, {ps_[0]: _tok_eval(e_.args[0], env_)})
